@@ -75,6 +75,9 @@ def cases(draw):
     elif t[0] != 'm' and draw(st.integers(0, 2)) > 0:
         t = T.M([(draw(st.sampled_from(gen.PARAM_NAMES)), copy.deepcopy(t)),
                  ('val', draw(gen.scalar_trees(spec)))])
+    if draw(st.integers(0, 4)) == 0:
+        # explicit tags: a collection may carry a scalar's core tag and vice versa
+        t, _ops = draw(gen.mutate(spec, t, n=draw(st.integers(1, 2)), kinds=['tag']))
     keys = [k[1] for k, _ in t[1]] if t[0] == 'm' else []
     keys = [k for k in keys if isinstance(k, str)]
     name = draw(st.sampled_from(keys)) if keys and draw(st.integers(0, 3)) > 0 \
@@ -111,6 +114,16 @@ def cases(draw):
                 ty = draw(st.sampled_from([['list', 'any'], ['seq', ty]]))
             elif vs:
                 ty = draw(st.sampled_from([['dict', 'str', 'any'], ['map', 'str', ty]]))
+        if isinstance(ty, str) and ty in ('str', 'int', 'float', 'bool', 'none') and t[0] == 'm' \
+                and name in keys and draw(st.integers(0, 3)) == 0:
+            # a collection carrying exactly that scalar's core tag is not that scalar
+            core = '!!' + {'none': 'null'}.get(ty, ty)
+            coll = draw(st.sampled_from([T.Q([T.S('1'), T.S('2')], core), T.M([('b', T.S('1'))], core),
+                                         T.Q([], core)]))
+            t = copy.deepcopy(t)
+            for pr in t[1]:
+                if pr[0][1] == name:
+                    pr[1] = coll
         call = ['attr_type', name, ty]
     else:
         lit = draw(st.sampled_from(LITS))
